@@ -60,6 +60,8 @@ type State struct {
 	callsA  string // ghost: array Int -> Int (callee refs)
 	callsR  string // ghost: array Int -> Int (returned refs)
 	keepBase map[string]string
+	allocs   []string        // allocation constants created on this path
+	escaped  map[string]bool // ... whose address may be known to other code
 	dead    bool
 }
 
@@ -72,6 +74,11 @@ func (s *State) clone() *State {
 	n.known = make(map[string]string, len(s.known))
 	for k, v := range s.known {
 		n.known[k] = v
+	}
+	n.allocs = append([]string(nil), s.allocs...)
+	n.escaped = make(map[string]bool, len(s.escaped))
+	for k := range s.escaped {
+		n.escaped[k] = true
 	}
 	n.assumes = append([]string(nil), s.assumes...)
 	n.conds = append([]bool(nil), s.conds...)
